@@ -8,7 +8,8 @@
 //!   parse    p            RoutePattern::parse_str                      -> ok / offset, scheme, abs, parameters()
 //!   apply    p m|vals     RoutePattern::apply (map given, or values by position of parameters()), then
 //!                         unapply_str / unapply_route_uri on the produced route (round trip)
-//!   unapply  p u          RouteUri::from_str, unapply_str, unapply_route_uri (twice, fresh objects)
+//!   unapply  p u          RouteUri::from_str, unapply_str, unapply_route_uri (twice, fresh objects), and
+//!                         apply(unapply(u)): the route regenerated from the bindings
 //!   amb      p q          RoutePattern::are_ambiguous in both orders
 //!   table    ps us        the PlaneBuilder::build loop (pairwise are_ambiguous, i < j) and the
 //!                         Routes::find_route loop (first pattern whose unapply_route_uri is Ok),
@@ -139,7 +140,15 @@ fn do_unapply(p: &str, u: &str) -> Value {
         },
     ];
     let stable = again.iter().all(|x| *x == s) && r == s;
-    json!({"uri_ok": uri_ok, "s": s, "r": r, "stable": stable, "path": path, "uscheme": scheme})
+    // the other direction of the inverse: apply(unapply(u)) - the route regenerated from the bindings
+    let re = match pat.unapply_str(u) {
+        Ok(b) => match pat.apply(&b) {
+            Ok(route) => json!(route),
+            Err(e) => json!({"apply_error": e.to_string()}),
+        },
+        Err(_) => Value::Null,
+    };
+    json!({"uri_ok": uri_ok, "s": s, "r": r, "stable": stable, "path": path, "uscheme": scheme, "re": re})
 }
 
 fn do_amb(p: &str, q: &str) -> Value {
